@@ -142,6 +142,16 @@ def finish(res, rule, assumptions, exhaustive=False):
         if nviol <= 25:
             print("VIOLATION property=%s replay=%s" % (res.prop, path))
             print("  " + text)
+    if os.environ.get("VERIF_VERBOSE"):
+        import collections, re
+        c = collections.Counter()
+        for sigs, path, text in res.violations:
+            parts = text.split()
+            sid = re.sub(r"-rnd-(\w+?)-\d+$", r"-rnd-\1", parts[0])
+            sid = re.sub(r"-[^-]*=\d+-\d+$", "-var", sid)
+            c[(sid, parts[3], parts[4])] += 1
+        for k, n in c.most_common(60):
+            print("  SUMMARY %5d %s" % (n, " ".join(k)), file=sys.stderr)
     cov = {
         "states": max(1, res.states + res.tlc_states),
         "transitions": max(1, res.transitions + res.tlc_transitions),
